@@ -178,8 +178,8 @@ func Cases(v *eddsa.Variant, b Base, opt Options) []Case {
 	}
 
 	// ---- A = R = identity (canonical), S = j*L: [S]B = O = R + [k]A for every j.
-	// j = 0 is a valid signature under the identity key; for j >= 1 only the
-	// range check on S stands between the input and acceptance.
+	// j = 0 satisfies the equation under the identity key (judged "either");
+	// for j >= 1 only the range check on S stands between the input and acceptance.
 	{
 		idE := v.Enc(c.Identity())
 		full := new(big.Int).Lsh(big.NewInt(1), uint(8*v.B))
